@@ -2,15 +2,15 @@ SPECIFICATION CSpec
 CONSTANTS
   Series = {"s1", "s2"}
   TOff = 0
-  TimesRaw = {0, 1, 2, 9}
+  TimesRaw = {0, 2, 9}
   Vals = {1, 2}
-  Types = {"f", "h"}
+  Types = {"f", "fh"}
   Apps = {"a1"}
   R = 4
-  W = 0
+  W = 20
   OOOCap = 2
-  Acts = {"NewAppender", "Append", "Commit", "Rollback", "Compact", "Reopen", "EvictSel", "EvictStale"}
-  Apis = {"v1"}
+  Acts = {"NewAppender", "Append", "Commit", "Rollback", "Compact", "CompactOOO", "Reopen", "Mmap", "EvictSel"}
+  Apis = {"v2"}
   Rej = {FALSE}
   DelLo = {0}
   DelHi = {9}
@@ -19,7 +19,7 @@ CONSTANTS
   KFInitOpts = FALSE
   KFV1Hist = FALSE
   MaxOps = 5
-  PreT = {0, 1}
+  PreT = {2, 9}
   TSActs = {}
   Balanced = FALSE
   EmitMode = "class"
